@@ -93,7 +93,7 @@ def build(targets=None):
         if not os.path.exists(os.path.join(COQ, "Makefile")):
             sh("coq_makefile -f _CoqProject -o Makefile", cwd=COQ)
         tgt = " ".join(targets) if targets else ""
-        rc, out = sh(f"timeout 1500 make -k -j{os.cpu_count() or 8} {tgt}", cwd=COQ, timeout=1600)
+        rc, out = sh(f"timeout 3300 make -k -j{os.cpu_count() or 8} {tgt}", cwd=COQ, timeout=3400)
         info["make_ok"] = rc == 0
         if rc != 0:
             info["log"] += out[-6000:]
